@@ -13,6 +13,9 @@ import vlib
 
 PROP = "C09"
 
+# thorough tier, fitted to measured state counts: (a) one protocol, quota 2, five request classes, four registrations
+# (3.5 M distinct states, about 1 min); (b) both protocols with two registrations. Both protocols with three
+# registrations is 53 M states / 19 min on 8 workers and was left out.
 MC_THOROUGH = """SPECIFICATION MCSpec
 CONSTANTS
   Allow = {1, 2}
@@ -20,7 +23,7 @@ CONSTANTS
   Reqs = {0, 1, 2, 3, 70000}
   Names = {"a", "b"}
   Sess = {"s1", "s2"}
-  Protos = {"tcp", "udp"}
+  Protos = {"tcp"}
   MaxQuota = 2
   Deviations = {}
   MaxBegins = 4
@@ -29,6 +32,7 @@ INVARIANTS TypeOK Whitelisted Exclusive Truthful ReplyTruthful QuotaBound QuotaE
 PROPERTIES PrevPortBack RefusalLeavesOthers
 CHECK_DEADLOCK FALSE
 """
+MC_THOROUGH_2 = MC_THOROUGH.replace('Protos = {"tcp"}', 'Protos = {"tcp", "udp"}').replace("MaxBegins = 4", "MaxBegins = 2")
 
 
 def trace_cfg(maxq, allow, uni):
@@ -85,6 +89,11 @@ def run(tier, seed):
         mc = vlib.tlc("MC_FrpsPorts", "MC_FrpsPorts_quick.cfg", workers="auto", timeout=900)
     else:
         mc = vlib.tlc("MC_FrpsPorts", MC_THOROUGH, workers="auto", timeout=3000, heap="24g")
+        mc2 = vlib.tlc("MC_FrpsPorts", MC_THOROUGH_2, workers="auto", timeout=3000, heap="24g")
+        if not mc2.ok:
+            raise vlib.Infra(f"ideal model (two protocols) violates {mc2.violated}\n{mc2.out[-2000:]}")
+        mc.distinct += mc2.distinct
+        mc.generated += mc2.generated
     if not mc.ok:
         raise vlib.Infra(f"ideal model violates {mc.violated}: the specification itself is inconsistent\n{mc.out[-2000:]}")
     v.add_cov(states=mc.distinct, transitions=mc.generated, exhaustive=True)
